@@ -66,7 +66,10 @@ def _tie(ctx, name, theorem, case):
             b = subprocess.run(["lake", "build", f"QV.GenBridge.{name}"], cwd=proj, capture_output=True, text=True, timeout=BRIDGE_TIMEOUT)
             ok, log = b.returncode == 0, (b.stdout + b.stderr)
         except subprocess.TimeoutExpired:
-            ok, log = False, f"timeout after {BRIDGE_TIMEOUT} s"
+            # a build that did not finish says nothing about the proof: no verdict (the correspondence stays the tie)
+            ctx.count(f"gen_tie[{name}]: regenerated model differs, re-proof timed out after {BRIDGE_TIMEOUT} s (no verdict)")
+            ctx.note(f"gen_tie[{name}]: lake build QV.GenBridge.{name} timed out after {BRIDGE_TIMEOUT} s")
+            return "timeout"
         if ok:
             ctx.count(f"gen_tie[{name}]: regenerated model differs textually, bridge theorem {theorem} re-proved")
             ctx.note(f"gen_tie[{name}]: re-proved in {time.time() - t0:.0f} s")
